@@ -350,8 +350,9 @@ def extract_regex_objs(
                 )
                 raise InvalidDirectoryPath(error_msg)
 
-        regex = fnmatch.translate((pattern.decode()))
-        yield re.compile(regex.encode())
+        # patterns are file names with wildcards: bytes that need not be valid UTF-8
+        regex = fnmatch.translate(os.fsdecode(pattern))
+        yield re.compile(os.fsencode(regex))
 
 
 def ignore_directories_patterns(root_path: bytes, patterns: Iterable[bytes]):
